@@ -253,13 +253,36 @@ func (w *World) sinksBeforeBackEdge(fn *ssa.Function, elem ssa.Value, at ssa.Ins
 func loopHeaderOf(b *ssa.BasicBlock) *ssa.BasicBlock {
 	var best *ssa.BasicBlock
 	for _, h := range b.Parent().Blocks {
-		if h.Dominates(b) && reachesBlock(b, h) && (h != b || len(h.Preds) > 1) {
+		if h.Dominates(b) && reachesWithin(b, h) && (h != b || len(h.Preds) > 1) {
 			if best == nil || best.Dominates(h) {
 				best = h
 			}
 		}
 	}
 	return best
+}
+
+// reachesWithin: h is reachable from b along blocks that h dominates (b belongs
+// to the natural loop of h, not merely to a loop further out that re-enters h).
+func reachesWithin(b, h *ssa.BasicBlock) bool {
+	seen := map[*ssa.BasicBlock]bool{}
+	var walk func(x *ssa.BasicBlock) bool
+	walk = func(x *ssa.BasicBlock) bool {
+		for _, s := range x.Succs {
+			if s == h {
+				return true
+			}
+			if seen[s] || !h.Dominates(s) {
+				continue
+			}
+			seen[s] = true
+			if walk(s) {
+				return true
+			}
+		}
+		return false
+	}
+	return walk(b)
 }
 
 func isParamFuncCall(fn *ssa.Function, cc *ssa.CallCommon) int {
